@@ -6,6 +6,7 @@ import (
 	"encoding/binary"
 	"encoding/hex"
 	"fmt"
+	"io"
 	"os"
 	"os/exec"
 	"strings"
@@ -24,18 +25,35 @@ import (
 var e64 = []string{"ReadFrom", "FromUnsafeBytes", "UnmarshalBinary", "FromBase64"}
 
 type countingReader struct {
-	r   *bytes.Reader
-	pos int
+	r           *bytes.Reader
+	pos         int
+	pieces      []int // piece sizes, cycled (nil: 7)
+	i           int
+	eofWithData bool // deliver the last piece together with io.EOF, as io.Reader allows
 }
 
 func (c *countingReader) Read(p []byte) (int, error) {
 	// deliver in small pieces
-	if len(p) > 7 {
-		p = p[:7]
+	max := 7
+	if len(c.pieces) > 0 {
+		max = c.pieces[c.i%len(c.pieces)]
+		c.i++
+	}
+	if len(p) > max {
+		p = p[:max]
 	}
 	n, err := c.r.Read(p)
 	c.pos += n
+	if c.eofWithData && err == nil && c.r.Len() == 0 {
+		err = io.EOF
+	}
 	return n, err
+}
+
+// readerShape is set by the property before each ReadFrom (drawn piece sizes).
+var readerShape struct {
+	pieces      []int
+	eofWithData bool
 }
 
 func decode64(entry int, data []byte) (b *roaring64.Bitmap, n int64, consumed int, err error) {
@@ -46,7 +64,7 @@ func decode64Into(recv *roaring64.Bitmap, entry int, data []byte) (b *roaring64.
 	b = recv
 	switch entry {
 	case 0:
-		cr := &countingReader{r: bytes.NewReader(data)}
+		cr := &countingReader{r: bytes.NewReader(data), pieces: readerShape.pieces, eofWithData: readerShape.eofWithData}
 		n, err = b.ReadFrom(cr)
 		consumed = cr.pos
 	case 1:
@@ -184,7 +202,18 @@ func propC18(t *rapid.T) {
 			recv, recvName = b.Clone(), "previously holding the same bitmap"
 			recv.Add(value64(t, "oldextra", m))
 		}
+		readerShape.pieces, readerShape.eofWithData = nil, false
+		if entry == 0 {
+			readerShape.pieces = rapid.SliceOfN(rapid.SampledFrom([]int{1, 2, 3, 4, 5, 7, 8, 13, 4096}), 1, 4).Draw(t, "pieces")
+			readerShape.eofWithData = garbage == 0 && rapid.Bool().Draw(t, "eofWithData")
+			inst.Count("C18", fmt.Sprintf("reader-pieces-min:%d", minInt(readerShape.pieces)))
+		}
 		rb, n, consumed, err := decode64Into(recv, entry, in)
+		pieces := readerShape.pieces
+		readerShape.pieces, readerShape.eofWithData = nil, false
+		if err != nil && entry == 0 {
+			fail("ReadFrom of the library's own bytes (+%d garbage) delivered in pieces of %v bytes: %v", garbage, pieces, err)
+		}
 		_ = recvName
 		if err != nil {
 			fail("%s of the library's own bytes (+%d garbage): %v", e64[entry], garbage, err)
@@ -218,6 +247,8 @@ func propC18(t *rapid.T) {
 	}
 
 	// --- damaged input: error or bitmap, never panic / hang ---
+	readerShape.pieces = rapid.SliceOfN(rapid.SampledFrom([]int{1, 2, 3, 5, 7, 4096}), 1, 3).Draw(t, "damaged.pieces")
+	defer func() { readerShape.pieces = nil }()
 	tryAll := func(what string, data []byte) {
 		for entry := 0; entry < 4; entry++ {
 			var rb *roaring64.Bitmap
@@ -292,6 +323,16 @@ func propC18(t *rapid.T) {
 		inst.Count("C18", fmt.Sprintf("mutant:count=2^%d(child)", bitsLen(c)))
 	}
 	inst.Case("C18", nb >= 2 || len(cuts) > 8, desc)
+}
+
+func minInt(a []int) int {
+	m := a[0]
+	for _, v := range a {
+		if v < m {
+			m = v
+		}
+	}
+	return m
 }
 
 func bitsLen(c uint64) int {
